@@ -19,6 +19,25 @@ func withAnon(fn *ssa.Function) []*ssa.Function {
 	return out
 }
 
+// closuresWithHelpers: the closures of fn and, for every helper the rule
+// tables do not know that fn (or one of its closures) calls, that helper and
+// its closures.
+func closuresWithHelpers(e *Env, fn *ssa.Function) []*ssa.Function {
+	out := withAnon(fn)[1:]
+	seen := map[*ssa.Function]bool{fn: true}
+	for _, f := range withAnon(fn) {
+		for _, c := range unknownHelperCalls(e, f) {
+			h := c.Call.StaticCallee()
+			if seen[h] {
+				continue
+			}
+			seen[h] = true
+			out = append(out, withAnon(h)...)
+		}
+	}
+	return out
+}
+
 // constCallArgs: the constant values passed as argument argIdx (receiver
 // excluded from numbering for static calls: index into CallCommon.Args) to
 // calls matching calleePat in fn and its closures.
@@ -64,22 +83,40 @@ func constCallArgs(fn *ssa.Function, calleePat string, argIdx int) []string {
 // value's provenance matches valuePat.
 func switchConsts(fn *ssa.Function, valuePat string) []string {
 	set := map[string]bool{}
-	for _, f := range withAnon(fn) {
-		for _, b := range f.Blocks {
-			ifi, ok := b.Instrs[len(b.Instrs)-1].(*ssa.If)
-			if !ok {
-				continue
-			}
-			for _, ft := range gate.EdgeFacts(ifi.Cond, true) {
-				if ft.Kind != gate.FCmp || (ft.Op != token.EQL && ft.Op != token.NEQ) {
+	var scan func(fn *ssa.Function, depth int)
+	scan = func(fn *ssa.Function, depth int) {
+		for _, f := range withAnon(fn) {
+			for _, b := range f.Blocks {
+				// a helper the rule tables do not know: the same scan inside it, with
+				// its parameters standing for the arguments of the call
+				for _, in := range b.Instrs {
+					c, ok := in.(*ssa.Call)
+					if !ok || depth >= 2 {
+						continue
+					}
+					if h := c.Call.StaticCallee(); h != nil && h.Blocks != nil && !prov.KnownFunction(h) && h.Pkg != nil &&
+						strings.HasPrefix(h.Pkg.Pkg.Path(), prov.ModulePrefix) && len(c.Call.Args) == len(h.Params) {
+						prov.PushSubst(h, &c.Call)
+						scan(h, depth+1)
+						prov.PopSubst()
+					}
+				}
+				ifi, ok := b.Instrs[len(b.Instrs)-1].(*ssa.If)
+				if !ok {
 					continue
 				}
-				if k, ok := ft.Y.(*ssa.Const); ok && prov.Match(valuePat, prov.Of(ft.X)) {
-					set[strings.TrimPrefix(prov.Of(k), "const:")] = true
+				for _, ft := range gate.EdgeFacts(ifi.Cond, true) {
+					if ft.Kind != gate.FCmp || (ft.Op != token.EQL && ft.Op != token.NEQ) {
+						continue
+					}
+					if k, ok := ft.Y.(*ssa.Const); ok && prov.Match(valuePat, prov.Of(ft.X)) {
+						set[strings.TrimPrefix(prov.Of(k), "const:")] = true
+					}
 				}
 			}
 		}
 	}
+	scan(fn, 0)
 	return sortedKeys(set)
 }
 
